@@ -206,7 +206,30 @@ def bad_value(kind):
         return 1
     if kind == "list":
         return []
+    if kind == "float":
+        return 1.0
+    if kind == "tuple":
+        # a "verdict with a reason": not a bool, whatever its first element says
+        return (True, "penetration depth unknown")
+    if kind == "truthy":
+        return Truthy()
     raise AssertionError(kind)
+
+
+class Truthy:
+    """An object that is true in a boolean context but is not a bool."""
+
+    def __bool__(self):
+        return True
+
+
+class BadStrError(Exception):
+    """An exception that cannot even be printed."""
+
+    def __str__(self):
+        return "collision at depth " + 3  # TypeError
+
+    __repr__ = __str__
 
 
 class Fault:
@@ -248,6 +271,8 @@ class Fault:
             raise StopIteration()
         if kind == "raise-memory":
             raise MemoryError()
+        if kind == "raise-badstr":
+            raise BadStrError()
         return bad_value(kind)
 
 
@@ -323,12 +348,17 @@ def run_scenario(base, geometric, sc):
         path = planner.solve(pf(sc["timeout_secs"]))
         out["outcome"] = "path"
         out["path"] = [bld.flat(s) for s in path.states]
-    except (FaultRaised, KeyboardInterrupt, GeneratorExit, InterruptedError, StopIteration, MemoryError):
+    except (FaultRaised, BadStrError, KeyboardInterrupt, GeneratorExit, InterruptedError, StopIteration, MemoryError):
         out["outcome"] = "error"
         out["message"] = "injected exception escaped to the caller"
     except Exception as e:  # planner errors are plain Exceptions with the core's message
         out["outcome"] = "error"
         out["message"] = str(e)
+    except BaseException as e:  # e.g. pyo3's PanicException: the extension panicked
+        if isinstance(e, SystemExit):
+            raise
+        out["outcome"] = "error"
+        out["message"] = "escaped to the caller: " + type(e).__name__
     out["validity_calls"] = vfault.calls
     out["goal_sample_calls"] = goal.k
     out["faults_fired"] = vfault.fired + (gfault.fired if gfault else 0)
